@@ -237,15 +237,28 @@ fn run_block_in_child(cx: &mut Ctx, run: RunCase, a: u64, b: u64, out: &Path, pr
     if pid == 0 {
         cx.probe = probe;
         let prog = Progress::map_existing(prog_path);
-        std::thread::spawn(move || loop {
-            std::thread::sleep(std::time::Duration::from_millis(100));
-            let s = CASE_START_MS.load(Ordering::Relaxed);
-            let c = crate::acc::CASE_START_CPU_MS.load(Ordering::Relaxed);
-            if s != 0 && (crate::acc::cpu_ms().saturating_sub(c) > CASE_BUDGET_MS || crate::acc::now_ms().saturating_sub(s) > CASE_WALL_BUDGET_MS) {
-                if let Some(p) = &prog {
-                    p.set_state(2);
+        std::thread::spawn(move || {
+            // CPU budget per case: the CPU clock is sampled here (it is a system call), not per case
+            let (mut seen_seq, mut cpu0) = (u64::MAX, 0u64);
+            loop {
+                std::thread::sleep(std::time::Duration::from_millis(100));
+                let s = CASE_START_MS.load(Ordering::Relaxed);
+                if s == 0 {
+                    seen_seq = u64::MAX;
+                    continue;
                 }
-                unsafe { libc::_exit(98) }
+                let seq = crate::acc::CASE_SEQ.load(Ordering::Relaxed);
+                if seq != seen_seq {
+                    seen_seq = seq;
+                    cpu0 = crate::acc::cpu_ms();
+                    continue;
+                }
+                if crate::acc::cpu_ms().saturating_sub(cpu0) > CASE_BUDGET_MS || crate::acc::now_ms().saturating_sub(s) > CASE_WALL_BUDGET_MS {
+                    if let Some(p) = &prog {
+                        p.set_state(2);
+                    }
+                    unsafe { libc::_exit(98) }
+                }
             }
         });
         for idx in a..b {
